@@ -15,13 +15,13 @@ SINKS = {"flip_", "flip", "isel_", "isel", "reindex_", "reindex"}
 PARAM = "output_inds"
 
 
-def _membership(test):
-    """(name, positive) for `name in output_inds` / `name not in output_inds`, else None."""
+def _membership(test, sets=(PARAM,)):
+    """(name, positive) for `name in output_inds` / `name not in output_inds` (or a local built from output_inds), else None."""
     if isinstance(test, ast.UnaryOp) and isinstance(test.op, ast.Not):
-        m = _membership(test.operand)
+        m = _membership(test.operand, sets)
         return None if m is None else (m[0], not m[1])
     if isinstance(test, ast.Compare) and len(test.ops) == 1 and isinstance(test.left, ast.Name) \
-            and isinstance(test.comparators[0], ast.Name) and test.comparators[0].id == PARAM:
+            and isinstance(test.comparators[0], ast.Name) and test.comparators[0].id in sets:
         if isinstance(test.ops[0], ast.In):
             return test.left.id, True
         if isinstance(test.ops[0], ast.NotIn):
@@ -39,7 +39,8 @@ def _consumed_names(expr):
 
 
 class _Walker:
-    def __init__(self, fnode, net, candidates):
+    def __init__(self, fnode, net, candidates, sets=(PARAM,)):
+        self.sets = sets
         self.net = net
         self.cands = candidates
         self.sites = []  # (call, [(name, safe)])
@@ -98,7 +99,7 @@ class _Walker:
                     self.calls(s.value, facts)
                 return None
             if isinstance(s, ast.If):
-                m = _membership(s.test)
+                m = _membership(s.test, self.sets)
                 ft, ff = set(facts), set(facts)
                 if m is not None:
                     (ff if m[1] else ft).add(m[0])
@@ -168,14 +169,22 @@ def rule_output_protected(ctx):
     for f in mod.all_functions:
         if f.is_alias or isinstance(f.node, ast.Lambda) or f.parent is not None or PARAM not in f.params:
             continue
-        tests = [m for x in ast.walk(f.node) if isinstance(x, ast.If) for m in [_membership(x.test)] if m is not None]
+        # the parameter, and locals built from it alone (`oix = set(output_inds)`)
+        sets = {PARAM}
+        for a in ast.walk(f.node):
+            if isinstance(a, ast.Assign) and len(a.targets) == 1 and isinstance(a.targets[0], ast.Name) and isinstance(a.value, ast.Call) \
+                    and isinstance(a.value.func, ast.Name) and a.value.func.id in ("set", "frozenset", "tuple", "list", "oset") \
+                    and len(a.value.args) == 1 and isinstance(a.value.args[0], ast.Name) and a.value.args[0].id == PARAM:
+                sets.add(a.targets[0].id)
+        sets = tuple(sorted(sets))
+        tests = [m for x in ast.walk(f.node) if isinstance(x, ast.If) for m in [_membership(x.test, sets)] if m is not None]
         if not tests:
             continue
         rets = [x.value.id for x in ast.walk(f.node) if isinstance(x, ast.Return) and isinstance(x.value, ast.Name)]
         if not rets:
             continue
         net = rets[-1]
-        w = _Walker(f.node, net, {m[0] for m in tests})
+        w = _Walker(f.node, net, {m[0] for m in tests}, sets)
         w.run(f.node.body, set())
         for call, safe in w.sites:
             n += 1
